@@ -107,4 +107,20 @@ pub fn vx_i64_from_le_slice(s: &[u8]) -> (r: i64)
 //@|                Ok::<u64, ()>((if arg.is_big_endian { spec_i32_be(arg.payload_raw@) } else { spec_i32_le(arg.payload_raw@) }) as u64) } else { Err::<u64, ()>(()) }), // O:arg_as_uint.signed32
 //@|        arg.type_info & 0x00000040 == 0 && arg.type_info & 0x00000020 == 0 ==> r is Err, // O:arg_as_uint.other
 //@ end
+
+// ---- C03 (allocation clause): the buffer pre-allocated for an announced transfer (FLST) ----
+// the argument of Vec::with_capacity in FileTransferPlugin::process_msg (the function itself is outside the Verus subset)
+//@ extract src/plugins/file_transfer.rs const MAX_INITIAL_FILE_DATA_CAPACITY
+//@ end
+//@ extract src/plugins/file_transfer.rs callarg `Vec::with_capacity` in FileTransferPlugin::process_msg#1
+//@   sub R3 `std::cmp::min(` => `vx_min_u64(`
+//@   sig pub fn flst_prealloc(keep_data: bool, nr_packages: u64, buffer_size: u64) -> (r: usize)
+//@   spec
+//@|    requires nr_packages > 0 && buffer_size > 0, // the enclosing `if nr_packages > 0 && buffer_size > 0`
+//@|    ensures
+//@|        r <= 0x10_0000, // O:flst.prealloc_bounded (never an allocation unrelated to the input: at most 1 MiB up front)
+//@|        keep_data ==> r > 0, // O:flst.prealloc_flag (capacity > 0 is the plugin's "keep the data" flag)
+//@   hint start
+//@|    assert(nr_packages as int * buffer_size as int >= 1) by(nonlinear_arith) requires nr_packages >= 1, buffer_size >= 1;
+//@ end
 // ---- end of units/filetransfer/argnum.rs ----
